@@ -80,6 +80,10 @@ static int partA(void)
             printf("VIOLATION: genuine record of an unmodified datagram not delivered (%d of 13 bytes)\n", r->dataLen);
             violation = 1;
         }
+        else
+        {
+            printf("OK: Part A: both application records behind the retransmitted flight delivered, session alive\n");
+        }
         matrixDtlsSentData(cli.ssl, n);
     }
     return violation;
@@ -115,7 +119,40 @@ static int partB(void)
             r->dataLen, (svr.ssl->flags & SSL_FLAGS_ERROR) ? 1 : 0);
         violation = 1;
     }
+    else
+    {
+        printf("OK: Part B: replayed record discarded, B2 and B3 delivered, session alive\n");
+    }
     return violation;
+}
+
+/* Control: several records per read on TLS (CBC, TLS 1.2 AEAD, TLS 1.3) and
+   several fresh records per datagram on DTLS still come out complete */
+static int control(int32 ver, psCipher16_t cipher, int isDtls, const char *label)
+{
+    peer_t cli, svr;
+    unsigned char *w, all[1400], msg[3][40];
+    int n, i, total = 0, sent = 0;
+    feed_t *r = calloc(1, sizeof(*r));
+    static unsigned char expect[200];
+
+    if (setupPair(&cli, &svr, ver, cipher, isDtls) < 0) { printf("control %s: setup failed\n", label); return 1; }
+    for (i = 0; i < 3; i++)
+    {
+        int len = 7 + 11 * i;
+        memset(msg[i], 'a' + i, len);
+        n = sendApp(&cli, msg[i], len, &w, isDtls);
+        memcpy(all + total, w, n); total += n;
+        memcpy(expect + sent, msg[i], len); sent += len;
+    }
+    feedBytes(&svr, all, total, r);
+    if (r->dataLen != sent || memcmp(r->data, expect, sent) || r->nAppData != 3)
+    {
+        printf("VIOLATION: control %s: 3 records in one read: delivered %d of %d bytes in %d pieces\n", label, r->dataLen, sent, r->nAppData);
+        return 1;
+    }
+    printf("OK: control %s: 3 records in one read delivered intact\n", label);
+    return 0;
 }
 
 int main(void)
@@ -124,5 +161,11 @@ int main(void)
     matrixSslOpen();
     a = partA();
     b = partB();
-    return (a > 0 || b > 0) ? 1 : 0;
+    a |= control(SSL_FLAGS_TLS_1_2, 0x003c, 0, "TLS1.2 CBC");
+    a |= control(SSL_FLAGS_TLS_1_2, 0x009c, 0, "TLS1.2 GCM");
+    a |= control(SSL_FLAGS_TLS_1_1, 0x002f, 0, "TLS1.1 CBC");
+    a |= control(SSL_FLAGS_TLS_1_3, 0x1301, 0, "TLS1.3 GCM");
+    a |= control(SSL_FLAGS_TLS_1_2, 0x003c, 1, "DTLS1.2 CBC");
+    a |= control(SSL_FLAGS_TLS_1_2, 0x009c, 1, "DTLS1.2 GCM");
+    return (a != 0 || b != 0) ? 1 : 0;
 }
